@@ -40,7 +40,8 @@ TRUSTED = [
     "not in the trace, hence not compared: which expression an `alias` declare lowered (its cid is an input of the operation), the reads of node_mapping by "
     "lookup_cid outside push_select (only their results, inside the pushed transforms, are checked against the guard); the key -> position mapping of "
     "utils/toposort.rs is redone in python (c16_trace.toposort_case)",
-    "needs three hook patches that are not in /repo yet (hooks/push-select.diff, extern-kind.diff, toposort-tables.diff): without them the check fails closed",
+    "needs hooks/lookup-cid.diff (not in /repo yet): without it the check fails closed; lower_expr / lower_sorts / lower_range (PL expression -> RQ expression) and "
+    "TableDepsCollector's traversal are not modelled: their results are compared (ids against node_mapping at every read; dependencies against the tables instantiated)",
     "the resolver's scoping is not modelled: that every operation stays within the visible set (vstep) is established per program by the strict replay; "
     "the consequence rq_wf is then a theorem (strict_runs_emit_wf_rq), and the strict verdict is cross-checked against rq_diags on every program",
     "idgen_load (Model/Lowerer.v) is tied to utils/id_gen.rs by the id-load-bounds stream (ids at usize::MAX/2, MAX/2+1, MAX through json::to_rq + rq_to_sql)",
@@ -519,10 +520,12 @@ def run():
                 # where the out-of-scope id entered: a read of lookup_cid or a declare answered from node_mapping whose result was
                 # not visible at that moment.  Every refusal must be preceded by such an entry (ids reach expressions in no other way)
                 en = entry.get(p)
-                if isinstance(en, tuple) and en[0] == "Some":
+                if not have_lookups:
+                    pass
+                elif isinstance(en, tuple) and en[0] == "Some":
                     at, (node, nm) = en[1]
                     ek = kinds[at] if isinstance(at, int) and at < len(kinds) else "?"
-                    ck.stat("strict-machine", "out-of-scope id entered through: " + ("a lookup_cid read" if nm != "None" or not ek.startswith("ODeclare") else ek))
+                    ck.stat("strict-machine", "out-of-scope id entered through: " + (ek if ek.startswith("ODeclare") and nm == "None" else "push_select (closing Select)" if node == 0 and ek.startswith("OEnd") else "a lookup_cid read"))
                     if isinstance(at, int) and isinstance(sv, int) and at > sv - 1:
                         ck.stat("strict-machine", "ENTRY-AFTER-REFUSAL")
                         ck.violation("the strict machine refuses operation %d although no out-of-scope id had entered an expression before it (first such entry: operation %d)" % (sv - 1, at),
